@@ -18,6 +18,7 @@ type akaTok struct {
 	W   string // "1", "2", ... or "v" (variable)
 	To  string // field:<Struct.Field> | const:<k> | drop | pad
 	Pos string
+	Src string // decode, variable-width reads: what the number of octets read derives from ("bits": the two octets after the length, divided by 8; "octets": those octets unscaled; "length": the length octet only)
 }
 
 func (t akaTok) String() string { return "[" + t.W + "→" + t.To + "]" }
@@ -193,7 +194,11 @@ func (c *Ctx) akaDecodePaths(fn *ssa.Function) (header akaPath, cases []akaPath,
 					}
 				}
 			}
-			return akaTok{W: w, To: to, Pos: c.InstrPos(ins)}, true
+			src := ""
+			if w == "v" {
+				src = akaLenOrigin(buf)
+			}
+			return akaTok{W: w, To: to, Pos: c.InstrPos(ins), Src: src}, true
 		}
 		return akaTok{}, false
 	}
@@ -860,6 +865,11 @@ func (c *Ctx) akaRules(r *Report, prefix, mode string) {
 		r.Check(dset[s.K] || hasDefault, ruleC, "setter case "+s.K, s.Pos, "decoded by case or default", "the setter accepts attribute type "+s.K+" but the decoder neither has a case for it nor a default")
 	}
 	c.akaScalingRule(r, prefix, um, setCases)
+	// a reference rule: claimed by the properties that speak about the RFC layout or about peers that are not
+	// this library (C05 decode side, C14, C15), not by the self round trip / stability properties
+	if mode == "decode" || mode == "full" || strings.HasPrefix(prefix, "C15.") {
+		c.akaReferenceClasses(r, prefix+"aka.reference-classes", um, dcases, setCases)
+	}
 	if mode == "roundtrip" || mode == "stability" || mode == "decode" {
 		return
 	}
@@ -1120,4 +1130,207 @@ func mergeOctetToks(ts []akaTok) []akaTok {
 		out = append(out, t)
 	}
 	return out
+}
+
+
+// akaLenOrigin classifies where the length of a read buffer comes from: it follows the buffer to its
+// make([]byte, n) (through a field it was stored to) and n through arithmetic, conversions and φ-nodes.
+func akaLenOrigin(buf ssa.Value) string {
+	var mk *ssa.MakeSlice
+	v := buf
+	for i := 0; i < 4 && mk == nil; i++ {
+		switch x := v.(type) {
+		case *ssa.MakeSlice:
+			mk = x
+		case *ssa.Slice:
+			v = x.X
+		case *ssa.ChangeType:
+			v = x.X
+		case *ssa.UnOp:
+			// a load of a field: the nearest store to the same field of the same object that precedes it
+			fa, ok := x.X.(*ssa.FieldAddr)
+			if !ok || x.Op != token.MUL {
+				return "?"
+			}
+			var best *ssa.Store
+			for _, b := range x.Block().Parent().Blocks {
+				for _, ins := range b.Instrs {
+					st, ok := ins.(*ssa.Store)
+					if !ok {
+						continue
+					}
+					fb, ok := st.Addr.(*ssa.FieldAddr)
+					if !ok || fb.X != fa.X || fb.Field != fa.Field {
+						continue
+					}
+					if dominatesInstr(st, x) && (best == nil || dominatesInstr(best, st)) {
+						best = st
+					}
+				}
+			}
+			if best == nil {
+				return "?"
+			}
+			v = best.Val
+		default:
+			return "?"
+		}
+	}
+	if mk == nil {
+		return "?"
+	}
+	scaled, reserved, length := false, false, false
+	seen := map[ssa.Value]bool{}
+	var walk func(v ssa.Value, div bool, depth int)
+	walk = func(v ssa.Value, div bool, depth int) {
+		if depth > 10 || seen[v] {
+			return
+		}
+		seen[v] = true
+		switch x := v.(type) {
+		case *ssa.BinOp:
+			d := div
+			if k, ok := x.Y.(*ssa.Const); ok && k.Value != nil {
+				if n, ok := constInt64(k.Value); ok && (x.Op == token.QUO && n == 8 || x.Op == token.SHR && n == 3) {
+					d = true
+				}
+			}
+			walk(x.X, d, depth+1)
+			walk(x.Y, div, depth+1)
+		case *ssa.Convert:
+			walk(x.X, div, depth+1)
+		case *ssa.ChangeType:
+			walk(x.X, div, depth+1)
+		case *ssa.Phi:
+			for _, e := range x.Edges {
+				walk(e, div, depth+1)
+			}
+		case *ssa.Call:
+			if cal := x.Call.StaticCallee(); cal != nil && strings.HasPrefix(cal.String(), "(encoding/binary.bigEndian).Uint") {
+				reserved = true
+				if div {
+					scaled = true
+				}
+			}
+		case *ssa.UnOp:
+			if fk, ok := fieldKeyOfLoad(x); ok {
+				switch {
+				case strings.HasSuffix(fk, ".reserved"):
+					reserved = true
+					if div {
+						scaled = true
+					}
+				case strings.HasSuffix(fk, ".length"):
+					length = true
+				}
+			}
+		case *ssa.Extract:
+			length = true // a ReadByte result: the length octet
+		}
+	}
+	walk(mk.Len, false, 0)
+	switch {
+	case reserved && scaled:
+		return "bits"
+	case reserved:
+		return "octets"
+	case length:
+		return "length"
+	}
+	return "?"
+}
+
+// akaReferenceClasses: which attribute types take which meaning of octets 2-3 is not something the two
+// sides of the codec can settle between themselves: a decoder and a setter that both treat AT_CHECKCODE or
+// AT_IDENTITY like AT_RES round-trip with each other and are wrong for every peer. The reference table
+// (spec/wire_layout.json, eap_aka_prime) lists the types per meaning.
+func (c *Ctx) akaReferenceClasses(r *Report, rule string, um *ssa.Function, dcases []akaPath, setCases []akaSetCase) {
+	r.Rule(rule, "octets 2-3 of an EAP-AKA' attribute carry the value length in bits exactly for the attribute types of the reference table (AT_RES, AT_KDF_INPUT), a length in octets only for those it lists (AT_IDENTITY ...), and are zero where it says reserved: decoder cases and setter cases are classified by how the number of value octets is derived and compared with the table", 6)
+	ws, err := loadWireSpec()
+	if err != nil {
+		r.undecided(rule, "reference table", "-", err.Error())
+		return
+	}
+	set := func(l []int64) map[string]bool {
+		m := map[string]bool{}
+		for _, k := range l {
+			m[fmt.Sprint(k)] = true
+		}
+		return m
+	}
+	bits, octs, zero := set(ws.Aka.LengthInBits), set(ws.Aka.LengthInOctets), set(ws.Aka.ReservedZero)
+	if len(bits) == 0 {
+		r.undecided(rule, "reference table", "-", "eap_aka_prime.length_in_bits is empty")
+		return
+	}
+	decodedAsBits := map[string]bool{}
+	for _, dc := range dcases {
+		cls := ""
+		pos := c.Pos(um.Pos())
+		for _, t := range dc.Toks {
+			if t.W == "v" && strings.HasSuffix(t.To, ".value") {
+				cls = t.Src
+				pos = t.Pos
+			}
+		}
+		var labels []string
+		if dc.Label != "default" {
+			labels = strings.Split(dc.Label, ",")
+		}
+		key := "decoder case " + dc.Label
+		if dc.Opt != "" {
+			key += " (" + dc.Opt + ")"
+		}
+		switch cls {
+		case "bits":
+			var wrong []string
+			for _, k := range labels {
+				decodedAsBits[k] = true
+				if !bits[k] {
+					wrong = append(wrong, k)
+				}
+			}
+			if dc.Label == "default" {
+				wrong = append(wrong, "every type without a case of its own")
+			}
+			r.Check(len(wrong) == 0, rule, key, pos, "value length = octets 2-3 / 8 for types "+dc.Label+", all listed as length-in-bits", "the decoder sizes the value of attribute type(s) "+strings.Join(wrong, ", ")+" from octets 2-3 taken as a bit count; the reference table gives that meaning only to "+fmt.Sprint(ws.Aka.LengthInBits)+": a well-formed attribute from a peer is cut short or refused")
+		case "octets":
+			var wrong []string
+			for _, k := range labels {
+				if !octs[k] {
+					wrong = append(wrong, k)
+				}
+			}
+			if dc.Label == "default" {
+				wrong = append(wrong, "every type without a case of its own")
+			}
+			r.Check(len(wrong) == 0, rule, key, pos, "value length = octets 2-3 for types "+dc.Label+", all listed as length-in-octets", "the decoder sizes the value of attribute type(s) "+strings.Join(wrong, ", ")+" from octets 2-3 taken as an octet count; the reference table gives that meaning only to "+fmt.Sprint(ws.Aka.LengthInOctets))
+		case "length":
+			var wrong []string
+			for _, k := range labels {
+				if bits[k] {
+					wrong = append(wrong, k)
+				}
+			}
+			r.Check(len(wrong) == 0, rule, key, pos, "value length from the length octet", "attribute type(s) "+strings.Join(wrong, ", ")+" carry their exact value length in bits in octets 2-3, but this case sizes the value from the length octet alone (padding would become part of the value)")
+		default:
+			r.undecided(rule, key, pos, "cannot tell what the number of value octets read derives from")
+		}
+	}
+	for k := range bits {
+		r.Check(decodedAsBits[k], rule, "attribute type "+k+" is decoded with its bit length", c.Pos(um.Pos()), "a decoder case sizes its value from octets 2-3 / 8", "no decoder case sizes the value of type "+k+" from the bit length in octets 2-3")
+	}
+	for _, s := range setCases {
+		key := "setter case " + s.K
+		switch {
+		case bits[s.K]:
+			r.Check(s.Reserved == "bits", rule, key, s.Pos, "octets 2-3 := 8*len(value)", "octets 2-3 must carry 8*len(value) for this type, the setter stores "+s.Reserved)
+		case zero[s.K]:
+			r.Check(s.Reserved == "0", rule, key, s.Pos, "octets 2-3 := 0 (reserved)", "octets 2-3 are reserved (zero when sending) for this type, the setter stores "+s.Reserved)
+		case s.Reserved == "bits":
+			r.bad(rule, key, s.Pos, "the setter stores 8*len(value) into octets 2-3 of attribute type "+s.K+"; the reference table gives that meaning only to "+fmt.Sprint(ws.Aka.LengthInBits))
+		default:
+			r.ok(rule, key, s.Pos, "octets 2-3: "+s.Reserved, true)
+		}
+	}
 }
